@@ -13,22 +13,16 @@ import (
 	"io/fs"
 
 	"github.com/sourcegraph/zoekt"
+	verifrt "github.com/sourcegraph/zoekt/zz_verifrt"
 )
 
-type verifMemFile struct {
-	data []byte
-	name string
-}
+// verifMemFile: zoekt's own mmap-backed IndexFile type over an in-memory byte slice (its Read with
+// the real bounds check is what the reader goes through; Close is never called on it).
+type verifMemFile = mmapedIndexFile
 
-func (f *verifMemFile) Read(off, sz uint32) ([]byte, error) {
-	if uint64(off)+uint64(sz) > uint64(len(f.data)) {
-		return nil, fmt.Errorf("verifMemFile: out of bounds read %d+%d > %d", off, sz, len(f.data))
-	}
-	return f.data[off : off+sz], nil
+func verifFile(data []byte, name string) *verifMemFile {
+	return &mmapedIndexFile{name: name, size: uint32(len(data)), data: data}
 }
-func (f *verifMemFile) Size() (uint32, error) { return uint32(len(f.data)), nil }
-func (f *verifMemFile) Close()                {}
-func (f *verifMemFile) Name() string          { return f.name }
 
 // verifNoFile replaces os.ReadFile under the engine (sidecar lookup of parseMetadata): no sidecar.
 func verifNoFile(name string) ([]byte, error) {
@@ -42,7 +36,8 @@ type verifDoc struct {
 }
 
 func verifRepo(id uint32, name string, branches ...string) *zoekt.Repository {
-	r := &zoekt.Repository{ID: id, Name: name}
+	r := &zoekt.Repository{ID: id, Name: name, URL: "https://h/" + name,
+		FileURLTemplate: "https://h/" + name + "/{{.Path}}", LineFragmentTemplate: "#L{{.LineNumber}}", CommitURLTemplate: "https://h/" + name + "/{{.Version}}"}
 	for _, b := range branches {
 		r.Branches = append(r.Branches, zoekt.RepositoryBranch{Name: b, Version: "v-" + b})
 	}
@@ -54,7 +49,7 @@ func verifWriteShard(b *ShardBuilder, name string) *verifMemFile {
 	if err := b.Write(&buf); err != nil {
 		panic("fixture: write: " + err.Error())
 	}
-	return &verifMemFile{data: buf.Bytes(), name: name}
+	return verifFile(buf.Bytes(), name)
 }
 
 func verifLoad(f *verifMemFile) *indexData {
@@ -125,4 +120,10 @@ func verifRepoIndex(name string) int {
 		return 2
 	}
 	return -1
+}
+
+// verifNewIndexFile replaces NewIndexFile(*os.File) where the code under test opens shards
+// through the environment model (config "rewrite").
+func verifNewIndexFile(f *verifrt.File) (IndexFile, error) {
+	return verifFile(f.Data(), f.Name()), nil
 }
